@@ -25,7 +25,7 @@ CFG = {
             "every cursor position x 18 inserts typed one code point at a time and pasted (InsertStringAtCursor, one key event, paste bracket), "
             "then letter, BackSpace, Left, Delete, Draw; deletions that bring two parts of a grapheme together followed by cursor probes; random sequences over all code points. "
             "Round 3, the scrolled case of textinput.Draw: 6 texts (narrow, wide, mixed) x every window width 1..12 (thorough ..16) x 4 prompts (width 0, 1, 2 as one wide grapheme, 2 as two narrow) x the cursor "
-            "walking from the end to the beginning and back with a Draw after every step, Home/End, a one-column-wider window, every fifth case in password mode (288 cases; row and cursor column compared). Round 4: TextField observations carry the cursor index and the cached count (hook VerifC17State); op seg <text> = the three segmentation laws on the real uniseg and the driver's clUax "
+            "walking from the end to the beginning and back with a Draw after every step, Home/End, a one-column-wider window, every fifth case in password mode (288 cases; row and cursor column compared). Round 4: every eighth random tf / tfc case runs with no callbacks installed (op nocb: the OnSubmit == nil / OnChange == nil branches); TextField observations carry the cursor index and the cached count (hook VerifC17State); op seg <text> = the three segmentation laws on the real uniseg and the driver's clUax "
             "for every text over the 19 code points up to length 3 (thorough 4) and 3000 (thorough 40000) random texts of length 4..14. Distinct by the whole sequence.",
     "trusted_base": [
         "Key.Matches / Key.String (C09's subject) are evaluated by the real code in the harness; the model receives the 8 binding verdicts "
